@@ -394,7 +394,8 @@ def valid_requests(d):
     }
 
 
-VARIANTS = ('valid', 'other_project', 'unknown', 'method', 'accept', 'ctype', 'mv1.0')
+VARIANTS = ('valid', 'other_project', 'unknown', 'method', 'accept', 'ctype', 'mv1.0',
+            'own_then_other', 'other_then_own')
 _SWAP = [(P1, UNKNOWN_UUID), (P3, UNKNOWN_UUID), (K1, UNKNOWN_UUID),
          (RC_USED, 'CUSTOM_NO_SUCH'), (RC_FREE, 'CUSTOM_NO_SUCH'),
          (TR_USED, 'CUSTOM_NO_SUCH'), (TR_FREE, 'CUSTOM_NO_SUCH')]
@@ -409,6 +410,14 @@ def variant(req, route, method, kind):
         if route != '/usages':
             return None
         q['query'] = 'project_id=' + PROJ_B
+        return q
+    if kind in ('own_then_other', 'other_then_own'):
+        # the parameter that names the policy target given twice: whichever project's usages are
+        # reported is the one the caller has to be authorised for
+        if route != '/usages':
+            return None
+        a, b = (PROJ_A, PROJ_B) if kind == 'own_then_other' else (PROJ_B, PROJ_A)
+        q['query'] = 'project_id=%s&project_id=%s' % (a, b)
         return q
     if kind == 'unknown':        # same request for a resource that does not exist
         if '{' not in route:
@@ -577,7 +586,7 @@ def make_worker(base_image, *args):
 # ---------------------------------------------------------------------------------------------
 # Oracle
 # ---------------------------------------------------------------------------------------------
-def expectation(pol, route, method, var, req, cname, ref):
+def expectation(pol, route, method, var, req, cname, ref, targets=None):
     """-> dict(status=set, quiet=bool, same_as_ref=bool, why=str).
     quiet: no SQL statement at all, database image unchanged, no canary in the answer."""
     caller = CALLER[cname]
@@ -595,7 +604,14 @@ def expectation(pol, route, method, var, req, cname, ref):
                 'why': 'no credentials => 401'}
     rule = OP_RULE[(method, route)]
     target = usages_target(req) if route == '/usages' else None
-    if pol.allows(rule, caller, target):
+    if targets is not None:
+        # repeated project_id: `targets` are the projects whose data the reference answer shows
+        # (both named ones when the answer matches neither single-project answer)
+        allowed = all(pol.allows(rule, caller, t) for t in targets)
+        target = '/'.join(targets)
+    else:
+        allowed = pol.allows(rule, caller, target)
+    if allowed:
         return {'status': {ref['status']}, 'quiet': False, 'same_as_ref': True,
                 'why': 'caller satisfies %s = "%s"' % (rule, pol.rules[rule])}
     st = {403}
@@ -868,6 +884,16 @@ def run(ctx):
                                                                want),
                         _replay(cfg, c['rules'], req, REF, {'status': [want]}, None))
         ref = refs[key]
+        targets = None
+        if var in ('own_then_other', 'other_then_own'):
+            ra = refs.get((method, route, 'valid'))
+            rb = refs.get((method, route, 'other_project'))
+            if ra and rb and ra['body'] != rb['body'] and ref['body'] == ra['body']:
+                targets = [PROJ_A]
+            elif ra and rb and ra['body'] != rb['body'] and ref['body'] == rb['body']:
+                targets = [PROJ_B]
+            else:
+                targets = [PROJ_A, PROJ_B]
         pol = pols.get(cfg)
         if pol is None:
             pol = pols[cfg] = Policy(c['rules'])
@@ -875,7 +901,7 @@ def run(ctx):
         for cname in cnames:
             o = obs[cname]
             evaluations += 1
-            exp = expectation(pol, route, method, var, req, cname, ref)
+            exp = expectation(pol, route, method, var, req, cname, ref, targets)
             row.append(o['status'])
             prow.append(tuple(sorted(exp['status'])))
             if cname not in ANON and route not in ROOT_ROUTES:
